@@ -29,9 +29,12 @@ pub enum Derived {
     #[command(name = "стоп")]
     Stop,
     Exit,
+    // two names that share more with each other than with the built-in `help`
+    HexDump,
+    HexLoad,
 }
 impl Names for Derived {
-    const NAMES: &'static [&'static str] = &["öffne", "get", "set", "get-led", "get-adc", "старт", "стоп", "exit"];
+    const NAMES: &'static [&'static str] = &["öffne", "get", "set", "get-led", "get-adc", "старт", "стоп", "exit", "hex-dump", "hex-load"];
 }
 
 /// transcription of specs/80_autocomplete_spec.rs merge_step, folded over the candidates
@@ -311,7 +314,7 @@ fn one_session<C: Names + embedded_cli::service::Autocomplete + embedded_cli::se
     let built = CliBuilder::default().writer(sink.clone()).command_buffer(cbuf).history_buffer(hbuf).prompt(prompt0).build();
     let mut trace = format!(
         "commands={} cmd_buf={} hist_buf={} prompt={:?} fail_at_op={:?} keys=",
-        if it % 2 == 0 { "raw" } else { "derived[öffne,get,set,get-led,get-adc,старт,стоп,exit]" },
+        if it % 2 == 0 { "raw" } else { "derived[öffne,get,set,get-led,get-adc,старт,стоп,exit,hex-dump,hex-load]" },
         cap,
         hcap,
         prompt,
